@@ -2054,7 +2054,7 @@ func ruleSCONNFLAG(p *Program, r *Reporter) {
 	}
 	// blocks of connect() that can run after `connected = true`
 	var trueStores []*ssa.BasicBlock
-	n := 0
+	n, nTrue, nNil := 0, 0, 0
 	for _, fn := range p.srcFuncs {
 		if pkgOf(fn) != "client" {
 			continue
@@ -2063,9 +2063,23 @@ func ruleSCONNFLAG(p *Program, r *Reporter) {
 			for _, ins := range b.Instrs {
 				if v, ok := storeOf(ins, conn); ok && isBool(v, true) {
 					n++
+					nTrue++
 					okT := fn == connect
 					if okT {
 						trueStores = append(trueStores, b)
+					} else if sites := p.CallSitesOf(fn); len(sites) > 0 && fn.Parent() == nil && !isExportedEntry(fn) {
+						// a private helper ("markConnected") called by connect() only
+						okT = true
+						for _, s := range sites {
+							if _, plain := s.instr.(*ssa.Call); !plain || s.caller != connect {
+								okT = false
+							}
+						}
+						if okT {
+							for _, s := range sites {
+								trueStores = append(trueStores, s.instr.Block())
+							}
+						}
 					}
 					r.Ob(id, funcName(fn), "connected = true", ins.Pos(), okT, true,
 						ifs(okT, "only connect() reports the client connected, as its last step", funcName(fn)+" sets connected outside connect(): the client can report being connected before its monitors are re-established"))
@@ -2084,6 +2098,7 @@ func ruleSCONNFLAG(p *Program, r *Reporter) {
 					continue
 				}
 				n++
+				nNil++
 				paired := false
 				for _, i2 := range b.Instrs {
 					if v2, ok := storeOf(i2, conn); ok && isBool(v2, false) {
@@ -2108,6 +2123,16 @@ func ruleSCONNFLAG(p *Program, r *Reporter) {
 						okH, why = false, funcName(fn)+" drops the connection without clearing connected and runs on its own goroutine or deferred ("+p.Pos(s.instr.Pos())+"): Connected() keeps answering true while the client has no connection"
 						break
 					}
+					// the caller clears connected next to the call
+					pairedAtSite := false
+					for _, i2 := range s.instr.Block().Instrs {
+						if v2, ok := storeOf(i2, conn); ok && isBool(v2, false) {
+							pairedAtSite = true
+						}
+					}
+					if pairedAtSite {
+						continue
+					}
 					if !connectRegion[s.caller] {
 						okH, why = false, funcName(fn)+" drops the connection without clearing connected and is called from "+funcName(s.caller)+", outside the connect path"
 						break
@@ -2125,7 +2150,82 @@ func ruleSCONNFLAG(p *Program, r *Reporter) {
 			}
 		}
 	}
-	if n < 4 {
-		r.Anchor(id, fmt.Sprintf("%d stores of rpcClient = nil / connected = true, expected >= 4", n))
+	if nTrue < 1 || nNil < 1 {
+		r.Anchor(id, fmt.Sprintf("%d stores of rpcClient = nil and %d of connected = true, expected at least one of each", nNil, nTrue))
+	}
+}
+
+// ---------------------------------------------------------------------------
+// S-KEEPKIND: projecting a row on the monitored columns never turns a row into
+// "no row".
+//
+// In a row update the presence of old / new / insert / modify is the kind of the
+// change (a notification with none of them reads as a delete on the client). A
+// helper of the notification filters that maps *ovsdb.Row to *ovsdb.Row may
+// therefore return nil only where its argument is nil. Decided on every such
+// helper the filters of server.monitor reach inside package server; when the
+// projection is written inline there is no helper and nothing to decide.
+
+func ruleSKEEPKIND(p *Program, r *Reporter) {
+	const id = "S-KEEPKIND"
+	filters := monitorFilters(p)
+	rowT := p.LookupType("ovsdb", "Row")
+	if len(filters) == 0 || rowT == nil {
+		r.Anchor(id, "notification filters of server.monitor / ovsdb.Row")
+		return
+	}
+	isRowPtr := func(t types.Type) bool {
+		pt, ok := t.(*types.Pointer)
+		return ok && types.Identical(pt.Elem(), rowT)
+	}
+	seen := map[*ssa.Function]bool{}
+	n := 0
+	for _, f := range filters {
+		for _, g := range p.Reach(f) {
+			if seen[g] || pkgOf(g) != "server" || g.Signature.Results().Len() != 1 || !isRowPtr(g.Signature.Results().At(0).Type()) {
+				continue
+			}
+			seen[g] = true
+			var rowParams []*ssa.Parameter
+			for _, prm := range g.Params {
+				if isRowPtr(prm.Type()) {
+					rowParams = append(rowParams, prm)
+				}
+			}
+			if len(rowParams) == 0 {
+				continue
+			}
+			for _, b := range g.Blocks {
+				ret, ok := b.Instrs[len(b.Instrs)-1].(*ssa.Return)
+				if !ok || isRecoverBlock(b) || len(ret.Results) != 1 {
+					continue
+				}
+				n++
+				v := retValue(ret, 0)
+				if !isNilConst(v) {
+					r.Ob(id, funcName(g), "returns a row", retPos(ret, g), true, false, "not the nil constant")
+					continue
+				}
+				okN := false
+				for _, ft := range factsAt(b) {
+					cond, truth := normFact(ft)
+					bo, isBin := cond.(*ssa.BinOp)
+					if !isBin || (bo.Op != token.EQL && bo.Op != token.NEQ) || (bo.Op == token.EQL) != truth {
+						continue
+					}
+					for _, prm := range rowParams {
+						if (bo.X == ssa.Value(prm) && isNilConst(bo.Y)) || (bo.Y == ssa.Value(prm) && isNilConst(bo.X)) {
+							okN = true
+						}
+					}
+				}
+				r.Ob(id, funcName(g), "returns nil", retPos(ret, g), okN, true,
+					ifs(okN, "nil is returned for a nil row only", "the projection returns nil for a row that exists: the row update loses its old/new/insert/modify member and reads as a different kind of change (an update2 with neither insert nor modify is a delete on the client)"))
+			}
+		}
+	}
+	r.Count(id, 0)
+	if n == 0 {
+		r.Info("S-KEEPKIND: the notification filters reach no *ovsdb.Row -> *ovsdb.Row helper in package server (projection written inline): nothing to decide")
 	}
 }
